@@ -255,6 +255,9 @@ def build_py(ctx: Ctx, text: str, tag: str, backend: str = "numpy", rm: RefModel
         b.code = common.py_code(ode, backend=backend, **opts)
         b.mod = common.exec_module(b.code)
     except Exception as ex:
+        if "used by the generated code itself" in str(ex):
+            ctx.count("rejected/reserved-identifier")   # an error is an acceptable outcome (C19's subject)
+            return None
         if on_codegen_error == "skip":
             ctx.count(f"codegen_failed/{type(ex).__name__}")
             return None
